@@ -24,6 +24,7 @@ pub fn prop() -> HistProp {
         nontrivial,
         quick_cases: 5000,
         thorough_cases: 80000,
+        pressure_cases: (2000, 30000),
         assumptions: vec!["a handle that is dropped or replaced may write back its own directory entry (its parent directory is in scope)"],
     }
 }
